@@ -324,6 +324,24 @@ fn run<F: MathFunction>(case: &Case, cx: &mut Cx) -> CheckResult {
             "variable array of the wrong length: {:?}",
             r.map(|o| o.len())
         );
+        // ... also when it is too short, or empty
+        if !xs.is_empty() {
+            for short in [xs.len() - 1, 0] {
+                let mut bad: ShapeVars<Vec<f32>> = ShapeVars::new();
+                for (k, v) in free.iter().enumerate() {
+                    let n = if k == j { short } else { xs.len() };
+                    bad.insert(v.index().unwrap(), vec![0.5; n]);
+                }
+                let r = fe.eval_with_var_arrays(&ft, &xs, &ys, &zs, &bad);
+                ensure!(
+                    matches!(r, Err(ShapeBulkEvalError::MismatchedVarSlices { .. })),
+                    "mismatched-array-accepted",
+                    "variable array of {short} values for {} samples: {:?}",
+                    xs.len(),
+                    r.map(|o| o.len())
+                );
+            }
+        }
         // a missing needed variable is an error naming that variable
         let mut missing: ShapeVars<f32> = ShapeVars::new();
         for (k, v) in free.iter().enumerate() {
@@ -352,6 +370,21 @@ fn run<F: MathFunction>(case: &Case, cx: &mut Cx) -> CheckResult {
             ),
             other => fail!("missing-var-accepted", "bulk eval: {:?}", other.map(|o| o.len())),
         }
+        // the same through the binding entry points (what the renderers and the
+        // mesher take): check / bind / BoundShape::new
+        match missing.check(&shape) {
+            Err(m) => ensure!(m.var == want_var, "missing-var-wrong", "check: reported {:?}, the missing one is {:?}", m.var, want_var),
+            Ok(()) => fail!("missing-var-accepted", "ShapeVars::check accepted a map with a needed variable missing"),
+        }
+        match shape.bind(&missing) {
+            Err(m) => ensure!(m.var == want_var, "missing-var-wrong", "bind: reported {:?}, the missing one is {:?}", m.var, want_var),
+            Ok(_) => fail!("missing-var-accepted", "Shape::bind accepted a map with a needed variable missing"),
+        }
+        ensure!(
+            sv.check(&shape).is_ok() && shape.bind(&sv).is_ok(),
+            "complete-vars-rejected",
+            "check / bind rejected a complete variable map (with extras)"
+        );
         cx.ev.count("missing_and_mismatch_cases");
         // ---- a history on ONE bulk evaluator: per-sample variable arrays
         // whose first and last elements coincide (the first sample repeated at
